@@ -289,7 +289,7 @@ func findReference(msaIn io.Reader, referenceID string) (fastaio.EncodedFastaRec
 	coding := encoding.MakeEncodingArray()
 
 	s := bufio.NewScanner(msaIn)
-	s.Buffer(make([]byte, 0), 1024*1024)
+	s.Buffer(make([]byte, 0), fastaio.MaxLineLength)
 
 	first := true
 
